@@ -50,6 +50,9 @@ CHECKS['C09'] = ('property-based testing: datasets x resume splits, reference st
 CHECKS['C15'] = ('property-based testing: sharing-biased model generator, byte-level buffer/tensor consistency oracle + per-operand mode oracle',
   'Generated models built around sharing (one constant tensor with several consumers, several tensors on one buffer within and across subgraphs, converter-style de-duplication) x recipes giving the sharers equal, different or no quantization: quantize() may raise; if it returns, every tensor referencing a buffer must have a dtype whose implied byte length equals the buffer length and equal parameters, every original constant must still denote its values within one step (bit-equal when untouched), and every consumer must read the operand class its mode prescribes (C03 oracle), so a float consumer never reads integer bytes and vice versa.',
   'Rejections are counted per exception bucket, not judged (totality is C08).', 'DESIGN.md 4 C15')
+CHECKS['C19'] = ('property-based testing with a differential oracle: multi-subgraph model vs the stand-alone single-subgraph models built from the same spec, same recipe, same merged statistics',
+  'Generated models with 2..3 subgraphs (independent, sharing constant buffers, structurally equal twins with renamed tensors) are quantized as a whole and subgraph by subgraph (stand-alone models built from the same spec) with the same recipe and the same merged statistics; subgraph i of the multi result must equal subgraph 0 of the stand-alone result in tensors (names, shapes, dtypes, scales, zero points, quantized dimension, decoded constant bytes), operators (kind, wiring, options), graph inputs/outputs and signature entries; a rejection of one side only is a violation unless constants are shared across subgraphs.',
+  'Buffer/opcode indices compared through what they denote; statistics come from calibrating the stand-alone models.', 'DESIGN.md 4 C19')
 NOT_APPLICABLE = {}
 
 def main():
